@@ -1,6 +1,8 @@
 import BoboVerif.Model.Tcp
 import BoboVerif.Lemmas.Tcp
 import BoboVerif.Props.C15
+import BoboVerif.Props.C06
+import BoboVerif.Lemmas.TcpRestart
 /-!
 C07 (transport side) — the restart announcement survives every interleaving of the survivor's two threads.
 
@@ -207,5 +209,141 @@ theorem old_overwrites_reset :
     (passSmallG false r.1 1012 (fun _ => false) Msg.empty (fun _ => (0, 1012)) (fun _ => [])).2.2 = [(1, .sync, 1)] ∧
     (passSmallG false r.1 1040 (fun _ => true) Msg.empty (fun _ => (0, 1040)) (fun _ => [])).2.2 = [(1, .ping, 1)] := by
   decide
+
+/-! ---------------------------------------------------------------------------------------------
+## C07 at the status-lattice level: a restarted receiver recovers everything the survivor knew
+
+Pair model of Lemmas/TcpLattice.lean (see the last section of Props/C06.lean): the survivor's transport state
+`t`, its knowledge `knowS`, the receiver `j` with knowledge `knowJ`, the `wire`.  `restartJ keep` — anywhere in
+the run, any number of times — is the crash: `j` loses all its state (`knowJ := bot`), what was on the wire
+to it survives or not (`keep`), and the survivor handles the restart announcement (`incoming j FLAG_RESET`;
+that the announcement is sent and survives every interleaving of the survivor's threads is the first part of
+this file).
+
+Ghost (Lemmas/TcpRestart.lean) `baseAfter j P0 bot steps`: `bot` until the first restart; each `restartJ` sets
+it to `knowS` AT THAT MOMENT — everything the survivor knows (announced itself: `say`; learnt from third
+parties: `learn`) is owed again to `j`.  No other step touches it.
+
+Invariant (`binv_step`, `binv_run`; `restart_invariant_every_run` below): `base ≤ knowS` (the survivor's
+knowledge only grows: `knowS_monotone`) and
+   `j` is in the resync period at every clock `≥ L`   ∨   `base ≤ knowJ ⊔ ⨆ wire`.
+After a restart the left disjunct holds until a RESYNC is reported delivered; that RESYNC carries the snapshot
+`knowS ≥ base`.
+
+Hypotheses: exactly those of `idle_pair_knows_everything` — own entry excluded (`hself`), `last_comms ≥ 0`
+initially (`hlc`), decision clocks never going backwards (`PMono`), epoch clock (`hepoch`: every reading
+`≥ period_resync`; needed, see the counter-run at the end of Props/C06.lean, which is a counter-run for this
+theorem too and is repeated below with `base`).  No new hypothesis.
+--------------------------------------------------------------------------------------------- -/
+section Restart
+open Bobo.Lattice
+
+/-- the invariant after every run (`base` = `baseAfter j P0 bot steps`). -/
+theorem restart_invariant_every_run (j : Nat) (P0 : Pair) (e0 : String × Peer Status) (L0 : Int)
+    (he0 : P0.t.peers[j]? = some e0) (hself : e0.1 ≠ P0.t.self) (hlc : 0 ≤ e0.2.lastComms)
+    (hown : P0.own = bot) (hmiss : P0.missing = []) (hepoch : P0.t.cfg.periodResync ≤ L0)
+    (steps : List PStep) (hmono : PMono L0 steps) (L : Int) (hL : pLastNow L0 steps ≤ L) :
+    baseAfter j P0 bot steps ≤ (prun j P0 steps).knowS ∧
+    ∃ p, (prun j P0 steps).t.peers[j]? = some (e0.1, p) ∧
+      ((∀ now', now' ≥ L → InResync (prun j P0 steps).t.cfg now' p) ∨
+       baseAfter j P0 bot steps ≤
+         join (prun j P0 steps).knowJ (joinAll ((prun j P0 steps).wire.map meaning))) := by
+  obtain ⟨hp, hb⟩ := binv_run j e0.1 steps P0 bot L0 hmono
+    (pinv_init j P0 e0 L0 he0 hself hlc hown hmiss hepoch) (binv_init j P0 L0)
+  have hb' := binv_mono hL hb
+  obtain ⟨_, _, ⟨p, hpe, _, _, _⟩, _⟩ := hp
+  refine ⟨hb'.baseS, p, hpe, ?_⟩
+  rcases hb'.flow with ⟨e', he', hA⟩ | hf
+  · rw [hpe] at he'; cases he'
+    exact Or.inl hA
+  · exact Or.inr hf
+
+/-- **`restarted_receiver_recovers`**: for every crash point (`restartJ` anywhere in the run, any number of
+times), every interleaving with local changes, knowledge learnt from third parties, passes with any send
+outcomes (failures, timeouts, outages), deliveries in any order, duplicate deliveries, other RESETs and
+clock advances: if the link is idle at the end (`j` not in the resync period at the clock `L`, backlog,
+queue and wire empty) then the restarted instance holds everything the survivor knew when it (last)
+restarted — `base ≤ knowJ` — and everything the survivor ever announced — `own ≤ knowJ`. -/
+theorem restarted_receiver_recovers (j : Nat) (P0 : Pair) (e0 : String × Peer Status) (L0 : Int)
+    (he0 : P0.t.peers[j]? = some e0) (hself : e0.1 ≠ P0.t.self) (hlc : 0 ≤ e0.2.lastComms)
+    (hown : P0.own = bot) (hmiss : P0.missing = []) (hepoch : P0.t.cfg.periodResync ≤ L0)
+    (steps : List PStep) (hmono : PMono L0 steps) (L : Int) (hL : pLastNow L0 steps ≤ L)
+    (e : String × Peer Status) (he : (prun j P0 steps).t.peers[j]? = some e)
+    (hidle : ¬ InResync (prun j P0 steps).t.cfg L e.2) (hstash : stashOf e.2 = ([], [], []))
+    (hqueue : (prun j P0 steps).t.queue = []) (hwire : (prun j P0 steps).wire = []) :
+    baseAfter j P0 bot steps ≤ (prun j P0 steps).knowJ ∧ (prun j P0 steps).own ≤ (prun j P0 steps).knowJ := by
+  refine ⟨?_, idle_pair_knows_everything j P0 e0 L0 he0 hself hlc hown hmiss hepoch steps hmono L hL e he hidle
+    hstash hqueue hwire⟩
+  obtain ⟨_, hb⟩ := binv_run j e0.1 steps P0 bot L0 hmono
+    (pinv_init j P0 e0 L0 he0 hself hlc hown hmiss hepoch) (binv_init j P0 L0)
+  exact binv_idle j _ _ L (binv_mono hL hb) e he hidle hwire
+
+/-- the survivor's knowledge never decreases along a run (so the snapshot of a later RESYNC still carries
+what was owed at the restart). -/
+theorem survivor_knowledge_monotone (j : Nat) (P : Pair) (steps : List PStep) :
+    P.knowS ≤ (prun j P steps).knowS := knowS_monotone j steps P
+
+/-! ### non-vacuity: the survivor learnt `halted` from a third party; the receiver restarts; a RESYNC fails,
+the next one is delivered -/
+
+def restartRun : List PStep :=
+  [ .say ⟨[], [], [active 1 1]⟩,
+    .pass 996 (fun _ => (0, 996)),     -- SYNC to b delivered
+    .deliver 0,
+    .learn halted,                     -- from a third party: never queued for b
+    .restartJ false,                   -- b crashes, comes back empty, announces it
+    .pass 1000 (failB 1001),           -- RESYNC to b fails
+    .pass 1005 (fun _ => (0, 1005)),   -- too early for the next attempt (attempt_resync = 10)
+    .pass 1011 (fun _ => (0, 1012)),   -- RESYNC delivered: snapshot = everything the survivor knows
+    .deliver 0 ]
+
+example :
+    PMono 990 restartRun ∧ pLastNow 990 restartRun = 1011 ∧ pair0.t.cfg.periodResync ≤ 990 ∧
+    (prun 1 pair0 (restartRun.take 3)).knowJ = active 1 1 ∧
+    -- the crash
+    (prun 1 pair0 (restartRun.take 5)).knowJ = bot ∧ baseAfter 1 pair0 bot (restartRun.take 5) = halted ∧
+    (prun 1 pair0 (restartRun.take 5)).t.peers[1]? = some ("b", ⟨0, 0, 1, false, [], [], []⟩) ∧
+    -- the failed RESYNC and the pass that is too early: nothing on the wire, b still knows nothing
+    (prun 1 pair0 (restartRun.take 7)).wire = [] ∧ (prun 1 pair0 (restartRun.take 7)).knowJ = bot ∧
+    (prun 1 pair0 (restartRun.take 7)).t.peers[1]? = some ("b", ⟨0, 1001, 1, false, [], [], []⟩) ∧
+    -- the delivered RESYNC
+    (prun 1 pair0 (restartRun.take 8)).wire = [⟨[], [], [halted]⟩] ∧
+    -- the end: idle, `base = halted`, `own = active 1 1`, and b holds both
+    baseAfter 1 pair0 bot restartRun = halted ∧ (prun 1 pair0 restartRun).own = active 1 1 ∧
+    (prun 1 pair0 restartRun).knowJ = halted ∧
+    (prun 1 pair0 restartRun).t.peers[1]? = some ("b", ⟨1012, 1012, 1, false, [], [], []⟩) ∧
+    (prun 1 pair0 restartRun).t.queue = [] ∧ (prun 1 pair0 restartRun).wire = [] := by decide
+
+/-- … and through the theorem. -/
+example : baseAfter 1 pair0 bot restartRun ≤ (prun 1 pair0 restartRun).knowJ ∧
+    (prun 1 pair0 restartRun).own ≤ (prun 1 pair0 restartRun).knowJ :=
+  restarted_receiver_recovers 1 pair0 ("b", ⟨995, 995, 0, false, [], [], []⟩) 990 (by decide) (by decide) (by decide)
+    rfl rfl (by decide) restartRun (by decide) 1011 (by decide) ("b", ⟨1012, 1012, 1, false, [], [], []⟩) (by decide)
+    (by unfold InResync; decide) rfl (by decide) (by decide)
+
+/-- two crashes, the second while the first RESYNC is still on the wire and lost with it (`keep = false`). -/
+example :
+    let steps : List PStep := [.learn (active 2 5), .restartJ true, .pass 1000 (fun _ => (0, 1001)), .learn halted,
+      .restartJ false, .pass 1011 (fun _ => (0, 1012)), .redeliver 0, .deliver 0]
+    PMono 990 steps ∧ baseAfter 1 pair0 bot (steps.take 2) = active 2 5 ∧
+    (prun 1 pair0 (steps.take 3)).wire = [⟨[], [], [active 2 5]⟩] ∧
+    (prun 1 pair0 (steps.take 5)).wire = [] ∧ baseAfter 1 pair0 bot steps = halted ∧
+    (prun 1 pair0 steps).knowJ = halted ∧ (prun 1 pair0 steps).wire = [] ∧ (prun 1 pair0 steps).t.queue = [] ∧
+    (prun 1 pair0 steps).t.peers[1]? = some ("b", ⟨1012, 1012, 2, false, [], [], []⟩) := by decide
+
+/-! ### `hepoch` is needed (clock below `period_resync`): after the restart b is not in the resync period, the
+link is idle, and b holds nothing of what the survivor knows -/
+example :
+    let P0 : Pair := { pair0 with t := { pair0.t with peers :=
+      [("a", Peer.init false), ("b", Peer.init false), ("c", Peer.init false)] } }
+    let steps : List PStep := [.learn halted, .restartJ true, .pass 20 (fun _ => (0, 20))]
+    PMono 0 steps ∧ pLastNow 0 steps = 20 ∧ ¬ (P0.t.cfg.periodResync ≤ 0) ∧
+    (prun 1 P0 steps).t.peers[1]? = some ("b", ⟨0, 0, 1, false, [], [], []⟩) ∧
+    (20 : Int) - 0 < P0.t.cfg.periodResync ∧
+    (prun 1 P0 steps).t.queue = [] ∧ (prun 1 P0 steps).wire = [] ∧
+    baseAfter 1 P0 bot steps = halted ∧ (prun 1 P0 steps).knowJ = bot ∧
+    ¬ (baseAfter 1 P0 bot steps ≤ (prun 1 P0 steps).knowJ) := by decide
+
+end Restart
 
 end Bobo.Tcp
